@@ -11,8 +11,8 @@ from harness import calib, gen, sched
 from harness.common import Ctx, Violation, drive, quiet
 from harness.stubs import ScriptedLoss
 
-RULE = ("Scenario = 1-3 consecutive sessions of 1-3 batches, a loss script (improving / equal / worse), a scripted or seeded "
-        "epsilon-greedy agent. The real Calibrator.calibrate loop and the real RLScheduler._train run as two OS threads whose "
+RULE = ("Scenario = 1-3 consecutive sessions of 1-3 batches, a loss script (improving / equal / worse / exact zero), a scripted or "
+        "seeded epsilon-greedy agent, optionally one batch that fails (exception out of a sampler or the loss). The real Calibrator.calibrate loop and the real RLScheduler._train run as two OS threads whose "
         "synchronisation operations (queue put/get, shared flag read/write, thread start/join/begin) are schedule points owned "
         "by the harness. Schedules: ALL of them (stateless DFS over choice prefixes, sharded by prefix hash) for the small "
         "scenarios of each tier, Hypothesis-drawn choice vectors for larger ones. Oracle per run: bootstrap first, every later "
@@ -94,24 +94,52 @@ def run_once(scn, prefix=(), chooser=None):
                                                                                        random_state=scn["seed"])
         env = c["E"](n_act)
         schd = c["S"](samplers, agent=agent, env=env, random_state=scn["seed"])
+        fault = scn.get("fault")
+        where = {"si": 0, "bi": 0}
+
+        def maybe_fail(kind):
+            if fault and fault[2] == kind and fault[0] == where["si"] and fault[1] == where["bi"]:
+                ctl.events.append(("fault", kind))
+                raise Marker(f"{kind} fault in session {fault[0]} batch {fault[1]}")
+
         for pos, s in enumerate(schd.samplers):
             def wrap(s=s, pos=pos):
                 orig = s.sample
 
                 def sample(space, pts, losses):
+                    maybe_fail("sampler")
                     out = orig(space, pts, losses)
                     ctl.events.append(("ran", pos))
                     return out
                 s.sample = sample
             wrap()
+        upd0 = schd.update
+
+        def update(*a, **k):
+            r = upd0(*a, **k)
+            ctl.events.append(("updated",))
+            where["bi"] += 1
+            return r
+        schd.update = update
         cfg = {"space": gen.UNIT, "lineup": [], "loss": None, "model": "poly", "D": 1, "N": 3, "E": 1, "seed": scn["seed"],
                "real": "zeros"}
-        cal = calib.build(cfg, loss=ScriptedLoss(scn["losses"]), scheduler=schd)
+        loss = ScriptedLoss(scn["losses"])
+        loss0 = loss.compute_loss
+
+        def compute_loss(sim, real):
+            maybe_fail("loss")
+            return loss0(sim, real)
+        loss.compute_loss = compute_loss
+        cal = calib.build(cfg, loss=loss, scheduler=schd)
 
         def main():
             for si, nb in enumerate(scn["sessions"]):
+                where["si"], where["bi"] = si, 0
                 ctl.events.append(("session_start", si))
-                cal.calibrate(nb)
+                try:
+                    cal.calibrate(nb)
+                except Marker:
+                    ctl.events.append(("calibrate_raised", si))
                 left = {q.name: len(q.items) for q in ctl.queues if q.items}
                 alive = [p.name for p in ctl.parts if p.name != "main" and not p.finished]
                 ctl.events.append(("session_end", si, left, alive))
@@ -127,6 +155,10 @@ def run_once(scn, prefix=(), chooser=None):
         ctl.shutdown()
         sub.__exit__()
         CURRENT[0] = None
+
+
+class Marker(Exception):
+    pass
 
 
 def rewards(losses, nb):
@@ -145,8 +177,23 @@ def rewards(losses, nb):
 def judge(scn, ctl, outcome, halton_pos):
     """Returns (key, message) for the first violated clause, else None; and the run's signature."""
     ev = ctl.events
-    total = sum(scn["sessions"])
-    ran = [(i, e[1]) for i, e in enumerate(ev) if e[0] == "ran"]
+    fault = scn.get("fault")
+    # expected number of sampler runs / completed batches given the (optional) injected fault
+    exp_ran = exp_done = 0
+    for si, nb in enumerate(scn["sessions"]):
+        if fault and fault[0] == si:
+            exp_done += fault[1]
+            exp_ran += fault[1] + (1 if fault[2] == "loss" else 0)
+        else:
+            exp_done += nb
+            exp_ran += nb
+    batches = []                                  # every sampler run: [event index, position, completed?, index of 'updated']
+    for i, e in enumerate(ev):
+        if e[0] == "ran":
+            batches.append([i, e[1], False, None])
+        elif e[0] == "updated" and batches and not batches[-1][2]:
+            batches[-1][2], batches[-1][3] = True, i
+    ran = [(b[0], b[1]) for b in batches]
     pol = [(i, e[1]) for i, e in enumerate(ev) if e[0] == "policy"]
     lrn = [(i, e[1], e[2]) for i, e in enumerate(ev) if e[0] == "learn"]
     sig = (tuple(p for _, p in ran), tuple(a for _, a in pol), tuple((a, round(r, 12)) for _, a, r in lrn))
@@ -156,13 +203,16 @@ def judge(scn, ctl, outcome, halton_pos):
     if errs:
         n, e = errs[0]
         return ("C10/thread-died", f"participant {n} died with {type(e).__name__}: {str(e)[:100]}"), sig
-    if len(ran) != total:
-        return ("C10/batches", f"{len(ran)} batches ran, {total} requested"), sig
+    if fault and not any(e[0] == "calibrate_raised" for e in ev):
+        return ("C10/fault-swallowed", "the injected exception did not come out of calibrate()"), sig
+    done = [b for b in batches if b[2]]
+    if len(ran) != exp_ran or len(done) != exp_done:
+        return ("C10/batches", f"{len(ran)} sampler runs / {len(done)} completed batches, expected {exp_ran} / {exp_done}"), sig
     if ran and ran[0][1] != halton_pos:
         return ("C10/bootstrap", f"first batch ran sampler {ran[0][1]}, bootstrap is {halton_pos}"), sig
     # every later sampler is an (earlier, in-order) agent choice
     j = 0
-    for b in range(1, total):
+    for b in range(1, len(ran)):
         ri, pos = ran[b]
         while j < len(pol) and not (pol[j][1] == pos and pol[j][0] < ri):
             if pol[j][0] >= ri:
@@ -172,19 +222,21 @@ def judge(scn, ctl, outcome, halton_pos):
             return ("C10/sampler-not-agent-choice", f"batch {b} ran sampler {pos}, which is not an in-order earlier choice of the "
                     f"agent (choices {[a for _, a in pol]})"), sig
         j += 1
-    exp_r = rewards(scn["losses"], total)
-    if len(lrn) != total - 1:
-        return ("C10/learn-count", f"agent learned {len(lrn)} times for {total - 1} agent-chosen batches (learns "
+    chosen_done = [b for b in batches[1:] if b[2]]          # completed agent-chosen batches, in order
+    exp_r = rewards(scn["losses"], len(done))               # the c-th completed batch consumed the c-th scripted loss
+    if len(lrn) != len(chosen_done):
+        return ("C10/learn-count", f"agent learned {len(lrn)} times for {len(chosen_done)} completed agent-chosen batches (learns "
                 f"{[(a, r) for _, a, r in lrn]}; samplers run {[p for _, p in ran]})"), sig
     for kk, (li, a, r) in enumerate(lrn):
-        b = kk + 1
-        if a != ran[b][1]:
-            return ("C10/learn-wrong-action", f"learn #{kk} credits action {a} but batch {b} was run by sampler {ran[b][1]}"), sig
-        if li < ran[b][0]:
-            return ("C10/learn-before-run", f"learn #{kk} happened before batch {b} ran"), sig
-        if abs(r - exp_r[b]) > 1e-12 * max(1.0, abs(exp_r[b])):
-            return ("C10/learn-wrong-reward", f"learn #{kk} (batch {b}) got reward {r!r}, that batch's relative improvement is "
-                    f"{exp_r[b]!r}"), sig
+        bt = chosen_done[kk]
+        c = kk + 1
+        if a != bt[1]:
+            return ("C10/learn-wrong-action", f"learn #{kk} credits action {a} but that batch was run by sampler {bt[1]}"), sig
+        if li < bt[0]:
+            return ("C10/learn-before-run", f"learn #{kk} happened before its batch ran"), sig
+        if abs(r - exp_r[c]) > 1e-12 * max(1.0, abs(exp_r[c])):
+            return ("C10/learn-wrong-reward", f"learn #{kk} (completed batch {c}) got reward {r!r}, that batch's relative "
+                    f"improvement is {exp_r[c]!r}"), sig
     for e in ev:
         if e[0] == "session_end" and (e[2] or e[3]):
             return ("C10/leftover-after-session", f"after session {e[1]}: messages left in queues {e[2]}, threads still running "
@@ -213,7 +265,7 @@ def check_schedule(ctx: Ctx, case):
     choices = [c for c, _, _ in ctl.trace]
     verdict, sig = judge(scn, ctl, outcome, hp)
     ctx.count(sub, {"scenario": scn, "schedule": choices}, len(scn["sessions"]) >= 2 or any(choices),
-              [f"sessions={scn['sessions']}", scn["agent"]])
+              [f"sessions={scn['sessions']}", scn["agent"]] + (["failing-batch"] if scn.get("fault") else []))
     if verdict:
         ctx.fail(verdict[0], verdict[1] + f" [schedule {choices}; steps {[d for _, _, d in ctl.trace][-12:]}]", sub,
                  {"sub": sub, "scenario": scn, "schedule": choices})
@@ -249,7 +301,8 @@ def _explore(ctx: Ctx, scn, depth=6):
             choices = [c for c, _, _ in trace]
             verdict, sig = judge(scn, ctl, outcome, hp)
             case = {"sub": sub, "scenario": scn, "schedule": choices}
-            ctx.count(sub, case, len(scn["sessions"]) >= 2 or any(choices), [f"sessions={scn['sessions']}", scn["agent"]])
+            ctx.count(sub, case, len(scn["sessions"]) >= 2 or any(choices), [f"sessions={scn['sessions']}", scn["agent"]] +
+                      (["failing-batch"] if scn.get("fault") else []))
             if verdict:
                 ctx.fail(verdict[0], verdict[1] + f" [schedule {choices}; last steps {[d for _, _, d in trace][-10:]}]", sub, case)
                 return False
@@ -258,7 +311,7 @@ def _explore(ctx: Ctx, scn, depth=6):
                          f"yields {ref_sig}: the outcome depends on thread timing", sub, case)
                 return False
         prefix = next_prefix(trace)
-    ctx.classes[f"{sub}:schedules-of-{scn['sessions']}"] += n
+    ctx.classes[f"{sub}:schedules-of-{scn['sessions']}" + (f"-fault{scn['fault']}" if scn.get("fault") else "")] += n
     return True
 
 
@@ -266,9 +319,9 @@ LOSS_SCRIPTS = [[5.0, 4.0, 4.0, 6.0, 1.0, 0.5, 0.5, 3.0, 0.25], [1.0, 2.0, 3.0, 
                 [2.0, 0.0, 1.0, 0.0, 3.0, 0.0]]   # the last one reaches a perfect fit (best loss exactly 0)
 
 
-def scenario(sessions, agent="scripted", losses=0, script=(0, 1, 2, 1, 0, 2, 2, 0), seed=1, eps=0.3):
+def scenario(sessions, agent="scripted", losses=0, script=(0, 1, 2, 1, 0, 2, 2, 0), seed=1, eps=0.3, fault=None):
     return {"sessions": list(sessions), "agent": agent, "losses": LOSS_SCRIPTS[losses], "script": list(script), "samplers": 2,
-            "alpha": -1, "eps": eps, "seed": seed}
+            "alpha": -1, "eps": eps, "seed": seed, "fault": fault}
 
 
 @st.composite
@@ -280,6 +333,12 @@ def sampled_cases(draw):
            "script": draw(st.lists(st.integers(0, 3), min_size=1, max_size=6)), "samplers": draw(st.integers(1, 3)),
            "alpha": draw(st.sampled_from([-1, 0.5])), "eps": draw(st.sampled_from([0.0, 0.3, 1.0])),
            "seed": draw(st.integers(0, 50))}
+    if draw(st.integers(0, 3)) == 0:
+        # a batch that fails (exception out of a sampler or of the loss) - never the bootstrap batch itself
+        si = draw(st.integers(0, len(sessions) - 1))
+        lo = 1 if si == 0 else 0
+        if sessions[si] - 1 >= lo:
+            scn["fault"] = [si, draw(st.integers(lo, sessions[si] - 1)), draw(st.sampled_from(["sampler", "loss"]))]
     schedule = draw(st.lists(st.integers(0, 2), min_size=0, max_size=60))
     return {"sub": "sampled", "scenario": scn, "schedule": schedule}
 
@@ -309,5 +368,8 @@ def run(ctx: Ctx):
                 break
         if not ok:
             break
-    ctx.exhaustive_axes[f"all schedules of session lists {small}"] = ok
+    for sessions, fault in (([2, 1], [0, 1, "sampler"]), ([2, 1], [0, 1, "loss"]), ([1, 2], [1, 0, "loss"]), ([1, 2], [1, 1, "sampler"])):
+        if ok and not explore(ctx, scenario(sessions, fault=fault)):
+            ok = False
+    ctx.exhaustive_axes[f"all schedules of session lists {small} (+ 4 scenarios with a failing batch)"] = ok
     drive(ctx, "sampled", sampled_cases(), check_sampled, ctx.n(1600, 40000))
